@@ -231,6 +231,40 @@ def run(ctx: Ctx):
         # the recomputation happens after the owner clear
         if clears and not all(g.can_reach(c, clears_ready[0]) for c in clears):
             ctx.fail(cons + "#order", rem.loc(), "readiness is recomputed before Peer.connection is cleared")
+    # a second connection of an already connected peer is detected (election / refusal)
+    ctx.rule("C13-R9", "receive_cer recognises the other connections of the same peer by their "
+                       "peer identity", floor=1)
+    rc_ = nc.methods.get("receive_cer")
+    cons = "receive_cer:election-compares-local-name"
+    ctx.inst(cons)
+    if rc_ is not None:
+        ctx.use(rc_)
+        # attributes of a connection that hold the LOCAL identity (stored from self.origin_host)
+        local_attrs = set()
+        for fn_ in nc.all_funcs:
+            for x in A.walk_no_nested(fn_.node):
+                if isinstance(x, ast.Assign) and A.dotted(x.value) == "self.origin_host":
+                    for t in x.targets:
+                        if isinstance(t, ast.Attribute):
+                            local_attrs.add(t.attr)
+        comps = [x for x in ast.walk(rc_.node) if isinstance(x, ast.ListComp)
+                 and "self.connections" in ast.unparse(x.generators[0].iter)]
+        if not comps:
+            ctx.error("receive_cer: no search for other connections of the peer", rule="C13-R9")
+        for lc in comps:
+            var = lc.generators[0].target.id if isinstance(lc.generators[0].target, ast.Name) else None
+            for cond in lc.generators[0].ifs:
+                for x in ast.walk(cond):
+                    if isinstance(x, ast.Attribute) and isinstance(x.value, ast.Name) and x.value.id == var \
+                            and x.attr in local_attrs:
+                        ctx.fail(cons, rc_.loc(lc), f"the other connections of the CER's sender are "
+                                 f"searched with `{ast.unparse(cond)}`: `{var}.{x.attr}` holds this "
+                                 f"node's own name (it is stored from self.origin_host), so the search "
+                                 f"never finds anything - a second connection from an already "
+                                 f"connected peer is accepted and becomes READY next to the first; "
+                                 f"Peer.connection keeps the first one, and when that closes the peer "
+                                 f"counts as disconnected (application not ready, peer dialled again) "
+                                 f"although the second connection lives")
     from .common_node import connect_failure_closes
     connect_failure_closes(ctx, "C13-R7")
     from .common_node import ready_state_stores
